@@ -19,6 +19,9 @@ CLAIMED = {
     "C03": dict(level="model_checking", text=_L_TEXT, note=_L_NOTE, technique=_L_TECH),
     "C04": dict(level="model_checking", text=_L_TEXT, note=_L_NOTE, technique=_L_TECH),
     "C05": dict(level="model_checking", text=_L_TEXT, note=_L_NOTE, technique=_L_TECH),
+    "C06": dict(level="model_checking",
+                text=_L_TEXT + "; an adversarial replica (Tamper action) replaces any entry it holds by an unsigned / mis-signed / keyless / wrong-key / payload-edited / foreign-id copy at every position (candidate or not), access controllers deny a writer or everybody, and the exploration is repeated for the default, link-encrypting and legacy protobuf codecs; ground truth about validity comes from the script, never from Verify",
+                note=_L_NOTE + "; a panic on a library goroutine (process crash) is reported as a violation with the crashing script isolated by re-running it alone", technique=_L_TECH),
     "C15": dict(level="model_checking",
                 text=_L_TEXT + "; the Iterator option space of the property's quantifier (0-2 inclusive upper bounds related or not, one exclusive, unknown ones, every lower bound in range, every amount 0..size+1) is enumerated by TLC per reachable log",
                 note=_L_NOTE, technique=_L_TECH),
